@@ -6,6 +6,7 @@ import (
 	"os"
 	"path/filepath"
 	"sort"
+	"strconv"
 	"strings"
 	"time"
 
@@ -565,7 +566,7 @@ func c11RunCase(ctx *Ctx, idx int, hostile bool) {
 			return
 		}
 		// evaluate every curve under several sensor states
-		for round, temp := range []string{"-50000", "0", "45000", "<unreadable>", "61000", "200000"} {
+		for round, temp := range []string{"-50000", "0", "45000", "<unreadable>", "61000", "200000", "55000", "-50000", "40000", "80000"} {
 			for _, sc := range cfg.Sensors {
 				if sc.File != nil {
 					if temp == "<unreadable>" {
@@ -577,6 +578,10 @@ func c11RunCase(ctx *Ctx, idx int, hostile bool) {
 				}
 				if s, ok := sensors.GetSensor(sc.ID); ok {
 					_ = internal.VerifUpdateSensor(s)
+					if n, perr := strconv.Atoi(temp); perr == nil && round%2 == 1 {
+						// ... and the smoothed value has arrived there (the monitor gets it there in the long run)
+						s.SetMovingAvg(float64(n))
+					}
 				}
 			}
 			advance(200 * time.Millisecond)
